@@ -64,6 +64,10 @@ pub trait Subject {
     /// items yielded before and after invalidate_all() was called in the middle of one
     /// iteration (None where the borrow rules make that impossible)
     fn iter_with_invalidate_all(&mut self, after: usize) -> Option<(Vec<(u32, u32, u32)>, Vec<(u32, u32, u32)>)>;
+    /// clone / drop / switch cache handles, toggle alternative entry points (concurrent cache)
+    fn handle_op(&mut self, _sel: u8) -> &'static str {
+        "n/a"
+    }
     /// the (key, value sequence number) pairs listed by the cache's `Debug` output
     fn debug_pairs(&mut self) -> Vec<(u32, u32)>;
     /// items yielded before and after the clock was advanced in the middle of one iteration
@@ -282,7 +286,11 @@ impl<S: std::hash::BuildHasher + Clone> Subject for UnsyncSubject<S> {
 // ---------------------------------------------------------------------------
 
 pub struct SyncSubject<S = VBuild> {
+    /// the handle in use
     pub cache: mini_moka::sync::Cache<TK, TV, S>,
+    /// further clones of the same cache
+    others: Vec<mini_moka::sync::Cache<TK, TV, S>>,
+    alt_api: bool,
     pub clock: MockClock,
     reg: Arc<Reg>,
 }
@@ -341,7 +349,7 @@ pub fn sync_snapshot<S: std::hash::BuildHasher + Clone>(cache: &mini_moka::sync:
 impl<S: std::hash::BuildHasher + Clone + Send + Sync + 'static> SyncSubject<S> {
     pub fn from_cache(cache: mini_moka::sync::Cache<TK, TV, S>, reg: &Arc<Reg>) -> Self {
         let clock = cache.verif_set_clock();
-        SyncSubject { cache, clock, reg: Arc::clone(reg) }
+        SyncSubject { cache, others: Vec::new(), alt_api: false, clock, reg: Arc::clone(reg) }
     }
 }
 
@@ -351,6 +359,8 @@ impl SyncSubject {
         let clock = cache.verif_set_clock();
         SyncSubject {
             cache,
+            others: Vec::new(),
+            alt_api: false,
             clock,
             reg: Arc::clone(reg),
         }
@@ -368,17 +378,61 @@ impl<S: std::hash::BuildHasher + Clone + Send + Sync + 'static> Subject for Sync
     }
     fn get(&mut self, k: u32) -> Option<(u32, u32)> {
         let key = TK::new(k, &self.reg);
-        self.cache.get(&key).map(|v| (v.seq, v.w))
+        if self.alt_api {
+            #[allow(deprecated)]
+            let r = self.cache.get_if_present(&key);
+            r.map(|v| (v.seq, v.w))
+        } else {
+            self.cache.get(&key).map(|v| (v.seq, v.w))
+        }
     }
     fn contains(&mut self, k: u32) -> bool {
         let key = TK::new(k, &self.reg);
         self.cache.contains_key(&key)
     }
     fn iter(&mut self) -> Vec<(u32, u32, u32)> {
-        self.cache
-            .iter()
-            .map(|r| (r.key().k, r.value().seq, r.value().w))
-            .collect()
+        if self.alt_api {
+            let mut v = Vec::new();
+            for r in &self.cache {
+                v.push((r.key().k, r.value().seq, r.value().w));
+            }
+            v
+        } else {
+            self.cache.iter().map(|r| (r.key().k, r.value().seq, r.value().w)).collect()
+        }
+    }
+    fn handle_op(&mut self, sel: u8) -> &'static str {
+        match sel % 4 {
+            0 => {
+                // clone the handle in use and continue on the clone
+                let c = self.cache.clone();
+                let old = std::mem::replace(&mut self.cache, c);
+                self.others.push(old);
+                "clone handle, continue on the clone"
+            }
+            1 => {
+                if self.others.is_empty() {
+                    "no other handle to drop"
+                } else {
+                    let i = (sel as usize / 4) % self.others.len();
+                    drop(self.others.remove(i));
+                    "drop another handle"
+                }
+            }
+            2 => {
+                if let Some(o) = self.others.pop() {
+                    let old = std::mem::replace(&mut self.cache, o);
+                    self.others.insert(0, old);
+                    "switch to another handle"
+                } else {
+                    "no other handle to switch to"
+                }
+            }
+            _ => {
+                self.alt_api = !self.alt_api;
+                "toggle get_if_present / IntoIterator"
+            }
+        }
     }
     fn iter_with_invalidate_all(&mut self, after: usize) -> Option<(Vec<(u32, u32, u32)>, Vec<(u32, u32, u32)>)> {
         let (mut a, mut b) = (Vec::new(), Vec::new());
